@@ -214,8 +214,8 @@ func (m *Manager) getPrimaryStatus(status map[string]interface{}) map[string]int
 
 	// Get WAL sequence information
 	currentWalSeq := uint64(0)
-	if m.primary.wal != nil {
-		currentWalSeq = m.primary.wal.GetNextSequence() - 1 // Last used sequence
+	if w := m.primary.currentWAL(); w != nil {
+		currentWalSeq = w.GetNextSequence() - 1 // Last used sequence
 	}
 
 	// Add primary-specific information to status
